@@ -466,7 +466,9 @@ func (c *Ctx) c06SkipRead() {
 func (c *Ctx) skipReadRule(rule string) {
 	r := c.R
 	for _, name := range []string{"shardedMap.Read", "shardedMapOf.Read", "syncMap.Read"} {
-		e, paths, _, err := c.runFunc(name, pw.Policy{Inline: func(fn *types.Func, d int) bool { return pw.FuncName(fn) == "cache.Trait.PrepareRead" || pw.FuncName(fn) == "cache.TraitOf.PrepareRead" }})
+		e, paths, _, err := c.runFunc(name, pw.Policy{Inline: func(fn *types.Func, d int) bool {
+			return pw.FuncName(fn) == "cache.Trait.PrepareRead" || pw.FuncName(fn) == "cache.TraitOf.PrepareRead"
+		}})
 		if err != nil {
 			r.Unknown(rule, name, err.Error())
 			continue
